@@ -26,7 +26,8 @@ fn main() {
         "nearblocks" => for s in &scen_build::nearblocks(seed, thorough) { sink.build(s); },
         "structured" => for s in &scen_build::structured(seed, thorough) { sink.build(s); },
         "modes" => for s in &scen_build::modes(seed, thorough) { sink.build(s); },
-        "total" => for s in &scen_build::total(seed, thorough) { sink.build(s); },
+        "total" => { for s in &scen_build::total(seed, thorough) { sink.build(s); } scen_build::giant(&mut sink, thorough); },
+        "giant" => scen_build::giant(&mut sink, thorough),
         "corrupt" => for (s, errs) in &scen_build::corrupt_specs(seed, thorough) {
             let o = run_build(s);
             let id = sink.id();
@@ -38,7 +39,8 @@ fn main() {
         "text" => fqv::scen_render::text(&mut sink, seed, thorough),
         "svg" => fqv::scen_render::svg(&mut sink, seed, thorough),
         "frames" => fqv::scen_render::frames(&mut sink, seed, thorough),
-        "histories" => fqv::scen_hist::histories(&mut sink, &arg(&args, "--replay-in", ""), arg(&args, "--grp0", "0").parse().unwrap_or(0)),
+        "histories" => fqv::scen_hist::histories(&mut sink, &arg(&args, "--replay-in", ""), arg(&args, "--grp0", "0").parse().unwrap_or(0), arg(&args, "--mapping", "") == "rejected"),
+        "aftermath" => fqv::scen_hist::aftermath(&mut sink, seed, thorough, 2_000_000),
         "soak" => fqv::scen_hist::soak(&mut sink, seed, thorough),
         "threads" => fqv::scen_hist::threads(&mut sink, seed, thorough, 1_000_000),
         "fileio" => fqv::scen_file::fileio(&mut sink, seed, thorough, &arg(&args, "--replay-in", "")),
